@@ -107,7 +107,7 @@ PROPS["C03"] = dict(
     rule=("rapid draws 1-3 loggers (roots/children, optionally created with 1-4 writer options) and up to 30 steps of writer operations and "
           "probes, then probes every logger at Info, Error and a drawn severity. Non-trivial: the history contains a remove or reset that "
           "changed the model state, or a probe answered by per-level writers or at a custom level; distinct = (operation-name sequence, class set)."
-          " Six custom levels cover every combination of error device / treated-as / negative value / unregistered; in a fifth of the histories one pool writer fails on every Write (routing must be unaffected); the package default logger (and children of it, uniquely named per case) takes part in the histories; one pool writer is handed over as the handle slog.NewLogWriter returns for it; children are also made through WithSkip / WithLevel / WithAttrs."),
+          " Six custom levels cover every combination of error device / treated-as / negative value / unregistered; in a fifth of the histories one pool writer fails on every Write (routing must be unaffected); the package default logger (and children of it, uniquely named per case) takes part in the histories; one pool writer is handed over as the handle slog.NewLogWriter returns for it; children are also made through WithSkip / WithLevel / WithAttrs; a third of the writer operations are sandwiched between two probes of one severity on that logger."),
     assumptions=["each record carries a unique probe token, counted in the captured streams",
                  "all loggers are at level Always so that every severity except Off is admitted (gating is C01)"],
     stages=[
@@ -248,7 +248,7 @@ PROPS["C09"] = dict(
            "the last call on the probe's own goroutine), after a second history, and immediately again; all four payloads must be "
            "byte-identical. Process-lifetime state (anything initialised by the first record of a process) is covered by a cross-process stage: two "
            "fresh child processes draw the same probes from the same seed, one emits only the probes, the other a history before each; "
-           "the probe payloads of both processes must be byte-identical. Exploration of sampled (history, probe) pairs."),
+           "the probe payloads of both processes must be byte-identical (8 pairs of processes with 100 cases each in the quick tier, 32 x 1500 in the thorough tier: what the first use in a process decides gets one chance per pair). Exploration of sampled (history, probe) pairs."),
     note="sync.Pool reuse cannot be forced or observed from outside; the last history call runs on the probe's goroutine so that the probe normally picks up the context that call returned to the pool. GC may drop pooled objects (covered statistically).",
     rule=("rapid draws the probe and two histories. Non-trivial: a history contains a record longer than the probe, or of another format, or a "
           "colored record of another severity; distinct = (format, severity, named, caller, class set, lengths of both histories)."
@@ -328,7 +328,7 @@ PROPS["C18"] = dict(
     note="Not asserted (labelled only): textual look-alike prefixes (/rootkit vs /root) and paths in which a prefix re-occurs inside; when a regexp mapping or the /Volumes rule can interfere only the prefix rule and no-panic are asserted; removal of the home/cwd mapping is only exercised in the caller-field test (cwd). Mappings onto their own prefix and cyclic mapping chains are not generated; when a registered replacement itself lies under a protected prefix, that prefix may show (the user asked for it).",
     rule=("rapid draws 0-6 table operations, the two flags and 1-4 paths. Non-trivial: >= 2 applicable mappings, or an absolute replacement, or a "
           "remove before the query; distinct = (table history, flags, paths)."
-          " A quarter of the mappings are registered with a trailing separator; flags are set through all public ways. The caller-field test emits one or two records from the same call statement, the privacy flag drawn anew for each; table histories contain the general reset functions (Reset, ResetFlags, ResetLevel), which must leave the path tables alone."),
+          " A quarter of the mappings are registered with a trailing separator; flags are set through all public ways. The caller-field test emits one or two records from the same call statement, the privacy flag drawn anew for each; table histories contain the general reset functions (Reset, ResetFlags, ResetLevel), which must leave the path tables alone. Paths that no prefix mapping applies to and that a registered regexp mapping matches (generated in the shapes the patterns are written for) must equal the regexp rewrites applied in registration order; RemoveKnownPathRegexpMapping removes the first entry with that expression."),
     assumptions=["HOME and the working directory of the harness process are the home/cwd the package captured at init"],
     stages=[
         dict(name="safety", run="^TestSafety$", quick=15000, thorough=600000, shards=16, timeout_thorough=3000),
